@@ -59,19 +59,42 @@ pub fn boudot_witnesses(tag: &str, x: &Integer, a: &Integer, b: &Integer) -> Vec
 }
 
 pub fn issuance_bundle<C: Cs>(ctx: &Ctx, st: &Setup<C>, r: &mut impl rand::RngCore, n: usize, u: &[usize]) -> Option<Bundle> {
+    issuance_bundle_ext::<C>(ctx, st, r, n, u, None, false)
+}
+
+/// `trusted`: commitment key of a trusted party (own modulus) => the proof contains the "same secrets in C and
+/// C_trusted" part; `equal_hidden`: all hidden attributes get the same value
+pub fn issuance_bundle_ext<C: Cs>(
+    ctx: &Ctx,
+    st: &Setup<C>,
+    r: &mut impl rand::RngCore,
+    n: usize,
+    u: &[usize],
+    trusted: Option<&zkryptium::cl03::keys::CL03CommitmentPublicKey>,
+    equal_hidden: bool,
+) -> Option<Bundle> {
     let bases = st.bases_n(n);
-    let msgs = attributes::<C>(r, n, 0);
+    let mut msgs = attributes::<C>(r, n, 0);
+    if equal_hidden {
+        for &i in u {
+            msgs[i] = msgs[u[0]].clone();
+        }
+    }
     let commitment = Commitment::<CL03<C>>::commit_with_pk(&msgs, st.pk(), &bases, Some(u));
-    let label = format!("{}/zkpok/n{}/U={:?}", C::NAME, n, u);
+    let tc = trusted.map(|ck| Commitment::<CL03<C>>::commit_with_commitment_pk(&msgs, ck, Some(u)).cl03Commitment().clone());
+    let label = format!("{}/zkpok/n{}/U={:?}{}{}", C::NAME, n, u, if trusted.is_some() { "/trusted" } else { "" }, if equal_hidden { "/equal-hidden" } else { "" });
     let zk = ctx
         .call("ZKPoK::generate_proof", &label, None, || {
-            Ok::<_, ()>(ZKPoK::<CL03<C>>::generate_proof(&msgs, commitment.cl03Commitment(), None, st.pk(), &bases, None, u))
+            Ok::<_, ()>(ZKPoK::<CL03<C>>::generate_proof(&msgs, commitment.cl03Commitment(), tc.as_ref(), st.pk(), &bases, trusted, u))
         })
         .value?;
     let pk = st.pk();
     let rr = commitment.randomness().clone();
     let mut secrets: Vec<(String, Integer)> = u.iter().map(|&i| ("hidden-attribute".to_string(), msgs[i].value.clone())).collect();
     secrets.push(("commitment-randomness".into(), rr.clone()));
+    if let Some(t) = &tc {
+        secrets.push(("trusted-commitment-randomness".into(), t.randomness.clone()));
+    }
     let mut derived = vec![];
     let mut ranges = vec![];
     let max_x = Integer::from(2).pow(C::lm) - 1u32;
@@ -158,6 +181,36 @@ pub fn large_bundles<C: Cs>(ctx: &Ctx, r: &mut impl rand::RngCore, shapes: &[(us
     v
 }
 
+/// issuance proofs tied to a trusted-party commitment (every non-empty hidden set) and proofs whose hidden
+/// attributes are all equal
+pub fn special_bundles<C: Cs>(ctx: &Ctx, st: &Setup<C>, r: &mut impl rand::RngCore, nmax: usize) -> Vec<Bundle> {
+    let mut v = vec![];
+    let own = ctx
+        .call("CommitmentPublicKey::generate(own N)", "setup", None, || {
+            Ok::<_, ()>(zkryptium::cl03::keys::CL03CommitmentPublicKey::generate::<C>(None, Some(nmax)))
+        })
+        .value;
+    for n in 1..=nmax {
+        for u in all_subsets(n) {
+            if u.is_empty() {
+                continue;
+            }
+            if let Some(ck) = &own {
+                let ckn = zkryptium::cl03::keys::CL03CommitmentPublicKey { N: ck.N.clone(), h: ck.h.clone(), g_bases: ck.g_bases[..n].to_vec() };
+                if let Some(b) = issuance_bundle_ext::<C>(ctx, st, r, n, &u, Some(&ckn), false) {
+                    v.push(b);
+                }
+            }
+            if u.len() >= 2 {
+                if let Some(b) = issuance_bundle_ext::<C>(ctx, st, r, n, &u, None, true) {
+                    v.push(b);
+                }
+            }
+        }
+    }
+    v
+}
+
 /// all bundles for one setup: every hidden subset (non-empty for issuance)
 pub fn all_bundles<C: Cs>(ctx: &Ctx, st: &Setup<C>, r: &mut impl rand::RngCore, nmax: usize) -> Vec<Bundle> {
     let mut v = vec![];
@@ -176,4 +229,56 @@ pub fn all_bundles<C: Cs>(ctx: &Ctx, st: &Setup<C>, r: &mut impl rand::RngCore, 
         }
     }
     v
+}
+
+/// Linear-combination attack on sibling responses (elements of the same response array share one challenge):
+/// (s_j - s_k) / c must not be the difference of two of the prover's secrets, and equal secrets must not produce
+/// equal responses. Returns (array field, divisor label, what is revealed).
+pub fn sibling_difference_attack(b: &Bundle, challenges: &[(String, Integer)]) -> Vec<(String, String, String)> {
+    let ls = leaves(&b.json);
+    let bound = Integer::from(1) << 64;
+    let mut found = vec![];
+    let mut groups: std::collections::BTreeMap<String, Vec<&Integer>> = Default::default();
+    for (p, v) in &ls {
+        if let Some((parent, last)) = p.rsplit_once('/') {
+            if last.chars().all(|c| c.is_ascii_digit()) {
+                groups.entry(path_class(parent)).or_default().push(v);
+            }
+        }
+    }
+    let hid: Vec<&Integer> = b.hidden.iter().map(|(_, m)| m).collect();
+    for (field, vals) in &groups {
+        for j in 0..vals.len() {
+            for k in 0..vals.len() {
+                if j == k {
+                    continue;
+                }
+                if vals[j] == vals[k] && j < k && vals[j].significant_bits() > 64 {
+                    found.push((field.clone(), "equal-sibling-responses".to_string(), "equality-of-hidden-attributes".to_string()));
+                }
+                let diff = Integer::from(vals[j] - vals[k]);
+                for (cn, c) in challenges {
+                    if *c == 0 {
+                        continue;
+                    }
+                    let q = Integer::from(&diff / c);
+                    for a in 0..hid.len() {
+                        for bb in 0..hid.len() {
+                            if a == bb {
+                                continue;
+                            }
+                            let dx = Integer::from(hid[a] - hid[bb]);
+                            if dx.clone().abs() >= bound && Integer::from(&q - &dx).abs() < bound {
+                                let cl: String = cn.split(':').next().unwrap().chars().map(|ch| if ch.is_ascii_digit() { 'i' } else { ch }).collect();
+                                found.push((field.clone(), format!("difference/challenge[{}]", cl), "difference-of-hidden-attributes".to_string()));
+                            }
+                        }
+                    }
+                }
+            }
+        }
+    }
+    found.sort();
+    found.dedup();
+    found
 }
